@@ -39,7 +39,7 @@ class C30(OpMachine):
     expected_probes = ["add_block", "add_block_same_loc_ignored", "pending_created", "pending_resolved",
                        "del_block", "del_block_with_pendings", "del_block_pred", "self_loop", "dup_constraint",
                        "add_edge", "add_edge_kind_conflict", "del_edge", "merge", "merge_collision",
-                       "merge_conflict", "raw_mutation", "rebuild", "op_raised"]
+                       "merge_conflict", "raw_mutation", "raw_clear", "rebuild", "op_raised"]
 
     def setup(self):
         from miasm.core.asmblock import AsmCFG, AsmBlock, AsmConstraint
@@ -80,7 +80,7 @@ class C30(OpMachine):
             elif k == "del_edge":
                 actions.append([k, rng.randrange(8), rng.randrange(8)])
             elif k == "mut":
-                actions.append([k, rng.randrange(8), rng.choice(["add", "del", "flip"]), rng.randrange(nloc), rng.randrange(2)])
+                actions.append([k, rng.randrange(8), rng.choice(["add", "del", "flip", "clear"]), rng.randrange(nloc), rng.randrange(2)])
             else:
                 actions.append([k])
         return {"cfg": cfg, "actions": actions}
@@ -247,6 +247,13 @@ class C30(OpMachine):
                 elif a[2] == "del":
                     for c in cur:
                         b.bto.discard(c)
+                elif a[2] == "clear":
+                    # several constraints vanish at once (all of them, or all but those to dst):
+                    # rebuild_edges() then has neighbouring stale edges to remove in one pass
+                    for c in list(b.bto):
+                        if a[4] == 0 or c.loc_key != dst:
+                            b.bto.discard(c)
+                    w.probe("raw_clear")
                 elif cur:
                     newk = KINDS[1 - KINDS.index(cur[0].c_t)]
                     for c in cur:
